@@ -159,6 +159,8 @@ def encode_with(program, method, frames, payload=None):
             return A.AInt(None, list(ID_BITS))
         if name == 'calculate_canbus_checksum':
             arg = it.expr(call.args[0], env)
+            if isinstance(arg, A.ABytes):
+                arg = A.ABytes(list(arg.items))          # as it is now: a bytearray may be extended afterwards
             rec.checksum_args.append(arg)
             return A.AInt(None, [('csum', k) for k in range(8)])
         return NotImplemented
@@ -182,6 +184,8 @@ def decode_with(program, method, packet, extra_args=()):
             return (A.sym_int('H.pgn', 18), A.sym_int('H.src', 8), A.sym_int('H.dst', 8), A.sym_int('H.prio', 3))
         if name == 'calculate_canbus_checksum':
             arg = it.expr(call.args[0], env)
+            if isinstance(arg, A.ABytes):
+                arg = A.ABytes(list(arg.items))          # as it is now: a bytearray may be extended afterwards
             rec.checksum_args.append(arg)
             return A.AInt(None, [('csum', k) for k in range(8)])
         if name == 'self._decode':
